@@ -30,7 +30,7 @@ pub struct Failure {
 
 pub fn run_impl(case: &Case) -> Vec<String> {
     if case.ops.iter().map(|o| o.len()).sum::<usize>() > 2000 {
-        let _ = std::fs::write("/verif/.cache/current_case.txt", case.ops.iter().map(|o| format!("op {}\n", o)).collect::<String>() + &format!("show {}\n", case.show));
+        let _ = std::fs::write(std::env::var("VERIF_CURRENT_CASE").unwrap_or_else(|_| "/verif/.cache/current_case.txt".to_string()), case.ops.iter().map(|o| format!("op {}\n", o)).collect::<String>() + &format!("show {}\n", case.show));
     }
     let mut s = Session::default();
     case.ops.iter().map(|op| s.step(op)).collect()
